@@ -553,6 +553,8 @@ func runC20(cases string, res *Result) {
 	c20HeldResults(res)
 	c20WordLikeNames(res)
 	c20MethodValues(res)
+	c20AfterSandboxedLookups(res)
+	c20AfterPrefixOperators(res)
 	var knownFinding *Finding
 	pairsSeen := map[string]bool{}
 
